@@ -10,7 +10,7 @@ impl TcpStream {
 }
 impl crate::common::phys::PhysLayer {
     #[verifier::external_body]
-    pub fn new_tcp(socket: TcpStream) -> (r: crate::common::phys::PhysLayer) ensures r.sent.len() == 0, { unimplemented!() }
+    pub fn new_tcp(socket: TcpStream) -> (r: crate::common::phys::PhysLayer) ensures r.sent.len() == 0, r.tls_by is None, { unimplemented!() }
 }
 // serial ports
 pub struct SerialStream { pub x: u8 }
@@ -27,12 +27,12 @@ impl HostAddr {
     #[verifier::external_body]
     pub async fn connect(&self) -> (r: Result<TcpStream, std::io::Error>) { unimplemented!() }
 }
-pub struct TlsClientConfig { pub x: u8 }
+pub struct TlsClientConfig { pub ghost id: int }
 impl TlsClientConfig {
     // the TLS handshake: Ok only for a peer the TLS library accepted (not modelled, see C09)
     #[verifier::external_body]
     pub async fn handle_connection(&mut self, socket: TcpStream, endpoint: &HostAddr) -> (r: Result<crate::common::phys::PhysLayer, std::io::Error>)
-        ensures r is Ok ==> r->Ok_0.sent.len() == 0,
+        ensures r is Ok ==> r->Ok_0.sent.len() == 0 && r->Ok_0.tls_by == Some(old(self).id), final(self).id == old(self).id,
     { unimplemented!() }
 }
-//@trusted tokio::net::TcpStream, HostAddr::connect, TlsClientConfig::handle_connection: opaque environment
+//@trusted tokio::net::TcpStream, HostAddr::connect: opaque environment; TlsClientConfig::handle_connection: assumed contract here (the layer it returns was established under this configuration) - its real body is under contract in the tls unit
